@@ -224,12 +224,21 @@ def check_complex_glue(facts, rep):
     def dk(t):
         return re.sub(r'\^_ref__', '^', re.sub(r'#\d+\.\d+', '', show(t, -1000))).replace('&', '').replace('*', '')
 
+    from symex import private_helper
+
+    def canon(x):
+        # self[i] and self.summands.get(i) are the same summand; captured names may differ
+        x = re.sub(r'#i\d+:\d+\.\d+', '', x)
+        x = re.sub(r'get\(arg1\.\^self\.summands, (arg\d)\)', r'index(arg1.^self, \1)', x)
+        x = re.sub(r'arg1\.\^(reducer|red)\b', 'arg1.^r', x)
+        return x
+
     def rets(name):
         b = facts.bodies.get(C + name)
         if b is None:
             return None
         rep.saw(b)
-        return sorted({dk(p.ret) for p in SymEx(b).run() if p.end == 'return'})
+        return sorted({canon(dk(p.ret)) for p in SymEx(b, inline=private_helper(exclude=('d_matrix_col', 'reduced', 'd_matrix'))).run() if p.end == 'return'})
     want = {
         'd_matrix_col': ['vectorize(index(arg1, add(arg2, arg1.d_deg)), d(arg1, arg2, gen(index(arg1, arg2), arg3)))'],
         'd_matrix::{closure#0}': ['d_matrix_col(arg1.^self, arg1.^i, arg2)'],
